@@ -23,37 +23,121 @@ def coq_header(prop):
 
 
 def coq_case_type(prop):
-    return {"C16": "c16case", "C17": "iocase"}[prop]
+    return {"C16": "(list c16case)", "C17": "iocase"}[prop]
 
 
 def coq_check(prop):
-    return {"C16": "check_C16", "C17": "check_C17"}[prop]
+    return {"C16": "check_C16s", "C17": "check_C17"}[prop]
 
 
 # ---------------------------------------------------------------------------------------------
 # implementation side
 
 
-def _build(case):
-    """Perform the listed link insertions on fresh DAGNode objects."""
-    from bigtree.node.dagnode import DAGNode
+class _Builder:
+    """Performs the listed link insertions on real DAGNode objects, one step at a time.
 
-    nodes = [DAGNode(case["names"][i], **case["attrs"][i]) for i in range(case["n"])]
-    for op in case["ops"]:
+    Entry points (chosen per step by the generator):
+      ["P",  c, [p..], mut]     nodes[c].parents = lst            (lst = a list object made by the harness)
+      ["C",  p, [c..], mut]     nodes[p].children = lst
+      ["PS", [c1, c2..], [p..], mut]   the SAME list object assigned as parents of c1, c2, ...
+      ["CS", [p1, p2..], [c..], mut]   the SAME list object assigned as children of p1, p2, ...
+      ["NP", c, [p..], mut]     DAGNode(name, parents=lst) when node c does not exist yet (else like "P")
+      ["NC", p, [c..], mut]     DAGNode(name, children=lst) when node p does not exist yet (else like "C")
+      ["R", p, c]  p >> c       ["L", c, p]  c << p       ["D", p]  del p.children
+    mut: what the harness does to ITS list object after the assignment: "none" | "clear" | "rev" | ["append", k]
+    (a correct implementation never keeps the caller's list, so this changes nothing)."""
+
+    def __init__(self, case):
+        from bigtree.node.dagnode import DAGNode
+
+        self.cls = DAGNode
+        self.case = case
+        self.nodes = [None] * case["n"]
+
+    def node(self, i):
+        if self.nodes[i] is None:
+            self.nodes[i] = self.cls(self.case["names"][i], **self.case["attrs"][i])
+        return self.nodes[i]
+
+    def all_nodes(self):
+        return [self.node(i) for i in range(self.case["n"])]
+
+    def _mutate(self, lst, mut):
+        if mut == "clear":
+            lst.clear()
+        elif mut == "rev":
+            lst.reverse()
+        elif isinstance(mut, list) and mut[0] == "append":
+            lst.append(self.node(mut[1]))
+
+    def step(self, op):
         k = op[0]
-        if k == "P":        # child.parents = [p1, p2, ...]
-            nodes[op[1]].parents = [nodes[p] for p in op[2]]
-        elif k == "C":      # parent.children = [c1, c2, ...]
-            nodes[op[1]].children = [nodes[c] for c in op[2]]
-        elif k == "R":      # parent >> child
-            nodes[op[1]] >> nodes[op[2]]
-        elif k == "L":      # child << parent
-            nodes[op[1]] << nodes[op[2]]
-        elif k == "D":      # del parent.children
-            del nodes[op[1]].children
+        mut = op[3] if len(op) > 3 else "none"
+        if k in ("P", "NP"):
+            lst = [self.node(p) for p in op[2]]
+            if k == "NP" and self.nodes[op[1]] is None:
+                self.nodes[op[1]] = self.cls(self.case["names"][op[1]], parents=lst, **self.case["attrs"][op[1]])
+            else:
+                self.node(op[1]).parents = lst
+            self._mutate(lst, mut)
+        elif k in ("C", "NC"):
+            lst = [self.node(c) for c in op[2]]
+            if k == "NC" and self.nodes[op[1]] is None:
+                self.nodes[op[1]] = self.cls(self.case["names"][op[1]], children=lst, **self.case["attrs"][op[1]])
+            else:
+                self.node(op[1]).children = lst
+            self._mutate(lst, mut)
+        elif k == "PS":
+            lst = [self.node(p) for p in op[2]]
+            for c in op[1]:
+                self.node(c).parents = lst
+            self._mutate(lst, mut)
+        elif k == "CS":
+            lst = [self.node(c) for c in op[2]]
+            for p_ in op[1]:
+                self.node(p_).children = lst
+            self._mutate(lst, mut)
+        elif k == "R":
+            self.node(op[1]) >> self.node(op[2])
+        elif k == "L":
+            self.node(op[1]) << self.node(op[2])
+        elif k == "D":
+            del self.node(op[1]).children
         else:
             raise ValueError(k)
-    return nodes
+
+
+def _build(case):
+    """Perform all listed link insertions; returns the node objects."""
+    bld = _Builder(case)
+    for op in case["ops"]:
+        bld.step(op)
+    return bld.all_nodes()
+
+
+def _observe16(nodes):
+    """Everything C16 speaks about, on the DAG as it stands now (all nodes are queried, so that any state a
+    query leaves behind in the objects is in place when construction continues)."""
+    from bigtree.utils.iterators import dag_iterator
+
+    idx = {id(n): i for i, n in enumerate(nodes)}
+    links = _links(nodes)
+    it = [[[idx[id(p)], idx[id(c)]] for p, c in dag_iterator(s)] for s in nodes]
+    anc = [[idx[id(a)] for a in n.ancestors] for n in nodes]
+    desc = [[idx[id(a)] for a in n.descendants] for n in nodes]
+    sib = [[idx[id(a)] for a in n.siblings] for n in nodes]
+    goto = []
+    for a in nodes:
+        row = []
+        for b in nodes:
+            try:
+                ps = a.go_to(b)
+                row.append([0, [[idx[id(x)] for x in p] for p in ps]])
+            except Exception as e:
+                row.append([exn_code(e), []])
+        goto.append(row)
+    return {"links": links, "iter": it, "anc": anc, "desc": desc, "sib": sib, "goto": goto}
 
 
 def _links(nodes):
@@ -133,26 +217,19 @@ def _df_rows(df):
 def run_impl(prop, case):
     kind = case.get("kind", "dag")
     if prop == "C16":
-        from bigtree.utils.iterators import dag_iterator
-
-        nodes = _build(case)
-        idx = {id(n): i for i, n in enumerate(nodes)}
-        links = _links(nodes)
-        it = [[[idx[id(p)], idx[id(c)]] for p, c in dag_iterator(s)] for s in nodes]
-        anc = [[idx[id(a)] for a in n.ancestors] for n in nodes]
-        desc = [[idx[id(a)] for a in n.descendants] for n in nodes]
-        sib = [[idx[id(a)] for a in n.siblings] for n in nodes]
-        goto = []
-        for a in nodes:
-            row = []
-            for b in nodes:
-                try:
-                    ps = a.go_to(b)
-                    row.append([0, [[idx[id(x)] for x in p] for p in ps]])
-                except Exception as e:
-                    row.append([exn_code(e), []])
-            goto.append(row)
-        return {"links": links, "iter": it, "anc": anc, "desc": desc, "sib": sib, "goto": goto}
+        bld = _Builder(case)
+        cps = set(case.get("checkpoints", []))
+        snaps = []
+        for k, op in enumerate(case["ops"]):
+            bld.step(op)
+            if k in cps and k != len(case["ops"]) - 1:
+                snaps.append(_observe16(bld.all_nodes()))
+        snaps.append(_observe16(bld.all_nodes()))
+        # a second look at the finished DAG must give the same answers (queries must not change anything)
+        again = _observe16(bld.all_nodes())
+        if again != snaps[-1]:
+            raise RuntimeError("asking twice gave different answers on the same DAG")
+        return {"snaps": snaps}
 
     from bigtree.dag.construct import dataframe_to_dag, dict_to_dag, list_to_dag
     from bigtree.dag.export import dag_to_dataframe, dag_to_dict, dag_to_list
@@ -250,20 +327,24 @@ def cdfrows(l):
     return clist(f"DR {cstr(nm)} {copt(par, cstr)} {cattrs(a)}" for nm, par, a in l)
 
 
+def _emit_snap(case, obs):
+    n = case["n"]
+    for key in ("iter", "anc", "desc", "sib", "goto"):
+        assert len(obs[key]) == n
+    parts = [
+        cdag(case, obs["links"]),
+        clist(clist(cpair(str(p), str(c)) for p, c in o) for o in obs["iter"]),
+        clist(cids(o) for o in obs["anc"]),
+        clist(cids(o) for o in obs["desc"]),
+        clist(cids(o) for o in obs["sib"]),
+        clist(clist(cpair(str(int(code)), clist(cids(p) for p in ps)) for code, ps in row) for row in obs["goto"]),
+    ]
+    return "C16 " + " ".join(f"({p})" for p in parts)
+
+
 def emit(prop, case, obs):
     if prop == "C16":
-        n = case["n"]
-        for key in ("iter", "anc", "desc", "sib", "goto"):
-            assert len(obs[key]) == n
-        parts = [
-            cdag(case, obs["links"]),
-            clist(clist(cpair(str(p), str(c)) for p, c in o) for o in obs["iter"]),
-            clist(cids(o) for o in obs["anc"]),
-            clist(cids(o) for o in obs["desc"]),
-            clist(cids(o) for o in obs["sib"]),
-            clist(clist(cpair(str(int(code)), clist(cids(p) for p in ps)) for code, ps in row) for row in obs["goto"]),
-        ]
-        return "C16 " + " ".join(f"({p})" for p in parts)
+        return clist(_emit_snap(case, o) for o in obs["snaps"])
     kind = case["kind"]
     if kind == "export":
         md = "AllAttrs" if case["mode"] == "all" else "AttrDict " + clist(cpair(cstr(k), cstr(v)) for k, v in case["mode"])
@@ -313,37 +394,97 @@ def _is_acyclic(n, edges):
     return seen == n
 
 
-def _ops_from_edges(rng, edges, style=None):
-    """Turn an edge insertion sequence into setter calls of mixed styles (grouping neighbouring
-    insertions that share the child / the parent)."""
-    ops = []
-    i = 0
-    while i < len(edges):
-        p, c = edges[i]
-        st = style or rng.choice(["R", "L", "P", "C", "P", "C"])
-        if st == "P":
-            ps = [p]
-            j = i + 1
-            while j < len(edges) and edges[j][1] == c and edges[j][0] not in ps:
-                ps.append(edges[j][0])
-                j += 1
-            ops.append(["P", c, ps])
-            i = j
-        elif st == "C":
-            cs = [c]
-            j = i + 1
-            while j < len(edges) and edges[j][0] == p and edges[j][1] not in cs:
-                cs.append(edges[j][1])
-                j += 1
-            ops.append(["C", p, cs])
-            i = j
+MUTS = ["none", "none", "clear", "rev", "append"]
+
+
+def _mut(rng, n):
+    m = rng.choice(MUTS)
+    return ["append", rng.randrange(n)] if m == "append" else m
+
+
+def _ops_from_edges(rng, edges, style=None, n=None, max_checkpoints=0):
+    """Turn a set of edges (given in the wished insertion order) into setter calls through all entry points:
+    >>, <<, parents= / children= with multi-element lists, constructor arguments, one list object shared by
+    several nodes, the harness mutating its own list afterwards.  Returns (ops, checkpoints): checkpoints are
+    indices of ops after which all queries are run before construction continues."""
+    n = n if n is not None else (max([max(e) for e in edges]) + 1 if edges else 1)
+    remaining = list(edges)
+    ops, cps = [], []
+    created = set()
+
+    def take(pred):
+        got = [e for e in remaining if pred(e)]
+        for e in got:
+            remaining.remove(e)
+        return got
+
+    while remaining:
+        p, c = remaining[0]
+        st = style or rng.choice(["R", "L", "P", "C", "P", "C", "PS", "CS", "NP", "NC"])
+        if st in ("P", "NP", "PS"):
+            others = [e[0] for e in remaining[1:] if e[1] == c]
+            rng.shuffle(others)
+            ps = [p] + others[: rng.randint(0, len(others))]
+            if style == "P":      # deterministic grouping for the exhaustive families: neighbours only
+                ps = [p]
+                for e in remaining[1:]:
+                    if e[1] == c and e[0] not in ps:
+                        ps.append(e[0])
+                    else:
+                        break
+            cs2 = []
+            if st == "PS":
+                cand = [x for x in range(n) if x != c and all((q, x) in remaining for q in ps)]
+                rng.shuffle(cand)
+                cs2 = cand[: rng.randint(1, 2)]
+            if cs2:
+                targets = [c] + cs2
+                take(lambda e: e[1] in targets and e[0] in ps)
+                ops.append(["PS", targets, ps, _mut(rng, n)])
+                created.update(targets + ps)
+            else:
+                take(lambda e: e[1] == c and e[0] in ps)
+                kind = "NP" if (st == "NP" and c not in created) else "P"
+                ops.append([kind, c, ps, _mut(rng, n) if style is None else "none"])
+                created.update([c] + ps)
+        elif st in ("C", "NC", "CS"):
+            others = [e[1] for e in remaining[1:] if e[0] == p]
+            rng.shuffle(others)
+            cs = [c] + others[: rng.randint(0, len(others))]
+            if style == "C":
+                cs = [c]
+                for e in remaining[1:]:
+                    if e[0] == p and e[1] not in cs:
+                        cs.append(e[1])
+                    else:
+                        break
+            ps2 = []
+            if st == "CS":
+                cand = [x for x in range(n) if x != p and all((x, q) in remaining for q in cs)]
+                rng.shuffle(cand)
+                ps2 = cand[: rng.randint(1, 2)]
+            if ps2:
+                sources = [p] + ps2
+                take(lambda e: e[0] in sources and e[1] in cs)
+                ops.append(["CS", sources, cs, _mut(rng, n)])
+                created.update(sources + cs)
+            else:
+                take(lambda e: e[0] == p and e[1] in cs)
+                kind = "NC" if (st == "NC" and p not in created) else "C"
+                ops.append([kind, p, cs, _mut(rng, n) if style is None else "none"])
+                created.update([p] + cs)
         elif st == "R":
+            remaining.pop(0)
             ops.append(["R", p, c])
-            i += 1
+            created.update([p, c])
         else:
+            remaining.pop(0)
             ops.append(["L", c, p])
-            i += 1
-    return ops
+            created.update([p, c])
+        if len(cps) < max_checkpoints and remaining and rng.random() < 0.35:
+            cps.append(len(ops) - 1)
+            created = set(range(n))      # a checkpoint creates every node object
+    return ops, cps
 
 
 def _random_edges(rng, n, shape):
@@ -444,7 +585,7 @@ def _attrs(rng, n, style):
 
 
 def gen_dag(rng, nmax=7, nmin=2, pools=("distinct", "distinct", "affix", "special", "repeated"), attr_style="none",
-            with_del=True):
+            with_del=True, max_checkpoints=2):
     n = rng.randint(nmin, nmax)
     shape = rng.choice(["sparse", "mixed", "mixed", "dense", "dense", "chain", "fanin", "fanout", "diamond", "diamond",
                         "hourglass", "hourglass"])
@@ -452,16 +593,29 @@ def gen_dag(rng, nmax=7, nmin=2, pools=("distinct", "distinct", "affix", "specia
         n = rng.randint(max(nmin, 5), nmax + 1)
     pool_name = rng.choice(list(pools))
     edges = _random_edges(rng, n, shape)
-    ops = _ops_from_edges(rng, edges)
+    # sometimes hold back a few edges and add them after everything else (extend lower down / higher up later)
+    late = []
+    if len(edges) >= 3 and rng.random() < 0.4:
+        late = [edges.pop() for _ in range(rng.randint(1, 2))]
+    ops, cps = _ops_from_edges(rng, edges, n=n, max_checkpoints=max_checkpoints)
+    if late:
+        if max_checkpoints and ops and rng.random() < 0.8:
+            cps = (cps + [len(ops) - 1])[-max(max_checkpoints, 1):]
+        more, _ = _ops_from_edges(rng, late, n=n)
+        ops += more
     if with_del and edges and rng.random() < 0.12:
         # delete the children of one node and link some of them again (changes the list orders)
         p = rng.choice(edges)[0]
-        mine = [e for e in edges if e[0] == p]
+        mine = [e for e in edges + late if e[0] == p]
         rng.shuffle(mine)
+        if max_checkpoints and rng.random() < 0.5:
+            cps = (cps + [len(ops) - 1])[-max(max_checkpoints, 1):]
         ops.append(["D", p])
-        ops += _ops_from_edges(rng, mine[: rng.randint(0, len(mine))])
+        more, _ = _ops_from_edges(rng, mine[: rng.randint(0, len(mine))], n=n)
+        ops += more
+    cps = sorted(set(k for k in cps if 0 <= k < len(ops) - 1))
     return {"kind": "dag", "n": n, "names": _names(rng, n, pool_name), "attrs": _attrs(rng, n, attr_style),
-            "ops": ops, "stratum": f"{shape}/{pool_name}"}
+            "ops": ops, "checkpoints": cps, "stratum": f"{shape}/{pool_name}"}
 
 
 def all_small_dags(nmax):
@@ -557,6 +711,63 @@ def gen_raw(rng):
     return label, {"kind": "rawdf", "rows": rows, "cols": cols, "stratum": "rawdf/" + label}
 
 
+def _raw_from_rel(kind, rel, label):
+    """the same relation sequence as input of one of the three constructors (edge order preserved)"""
+    rel = [list(e) for e in rel]
+    if kind == "rawlist":
+        return {"kind": "rawlist", "rel": rel, "stratum": "rawlist/" + label}
+    if kind == "rawdict":
+        # dict order = first appearance as a child; parents of a child in order of appearance
+        names = []
+        for p, c in rel:
+            if c not in names:
+                names.append(c)
+        entries = [[nm, [p for p, c in rel if c == nm], {}] for nm in names]
+        return {"kind": "rawdict", "entries": entries, "stratum": "rawdict/" + label}
+    return {"kind": "rawdf", "rows": [[c, p, {}] for p, c in rel], "cols": [], "stratum": "rawdf/" + label}
+
+
+_CYC_NAMES = ["a", "b", "c", "x"]
+
+
+def cyclic_edge_sets(max_edges):
+    """every set of <= max_edges directed edges over four names that contains a directed cycle"""
+    pairs = [(p, c) for p in _CYC_NAMES for c in _CYC_NAMES if p != c]
+    out = []
+    for k in range(2, max_edges + 1):
+        for es in itertools.combinations(pairs, k):
+            idx = {nm: i for i, nm in enumerate(_CYC_NAMES)}
+            if not _is_acyclic(4, [(idx[p], idx[c]) for p, c in es]):
+                out.append(list(es))
+    return out
+
+
+def gen_cyclic(rng, tier):
+    """cyclic relation sets in many edge orders, for each constructor: each must be refused"""
+    kinds = ["rawlist", "rawdict", "rawdf"]
+    if tier == "thorough":
+        for es in cyclic_edge_sets(4):
+            for j, perm in enumerate(itertools.permutations(es)):
+                yield _raw_from_rel(kinds[0], perm, "cyclic_perm")
+                yield _raw_from_rel(kinds[1 + j % 2], perm, "cyclic_perm")
+        sets5 = cyclic_edge_sets(5)
+        for _ in range(3000):
+            es = list(rng.choice(sets5))
+            rng.shuffle(es)
+            yield _raw_from_rel(rng.choice(kinds), es, "cyclic_perm")
+        return
+    sets4 = cyclic_edge_sets(4)
+    sets5 = [es for es in cyclic_edge_sets(5) if len(es) == 5]
+    for i in range({"quick": 420, "search": 1500}[tier]):
+        es = list(rng.choice(sets4 if i % 3 else sets5))
+        rng.shuffle(es)
+        yield _raw_from_rel(kinds[i % 3], es, "cyclic_perm")
+    # all 24 orders of a few 4-edge sets whose cycle closes through a tail edge
+    for es in ([("a", "b"), ("b", "c"), ("x", "a"), ("b", "x")], [("a", "b"), ("b", "x"), ("x", "a"), ("x", "c")]):
+        for j, perm in enumerate(itertools.permutations(es)):
+            yield _raw_from_rel(kinds[j % 3], perm, "cyclic_perm")
+
+
 def _export_case(rng, dag, attr_style):
     c = dict(dag)
     c["kind"] = "export"
@@ -582,13 +793,25 @@ CORPUS_DAGS = [
     ("third_child_behind", 6, list("abcdef"), [["C", 1, [2, 3, 4]], ["R", 0, 1], ["R", 4, 5]]),
     ("single", 1, ["a"], []),
     ("two_components", 4, list("abcd"), [["R", 0, 1], ["R", 2, 3]]),
+    # query, extend lower down through the children setter, query again (state kept by a query must not go stale)
+    ("query_extend_below", 8, list("abcdefgh"),
+     [["R", 0, 1], ["R", 0, 2], ["P", 3, [1, 2]], ["C", 3, [4, 5]], ["R", 6, 5], ["C", 5, [7]]], [2, 3]),
+    # query, give an upstream node a new parent, query again
+    ("query_extend_above", 4, list("abcx"), [["R", 0, 1], ["R", 1, 2], ["L", 0, 3]], [1]),
+    ("query_extend_above_children", 4, list("abcx"), [["R", 0, 1], ["R", 1, 2], ["C", 3, [0]]], [1]),
+    # one list object used for the parents of two nodes, one of them gets a further parent later
+    ("shared_parent_list", 6, list("abcdex"), [["PS", [2, 3], [0, 1], "none"], ["R", 5, 3], ["P", 4, [2, 3], "clear"]]),
+    ("shared_child_list", 5, list("abcde"), [["CS", [0, 1], [2, 3], ["append", 4]], ["R", 4, 2]]),
+    ("caller_list_mutated", 4, list("abcd"), [["P", 2, [0, 1], ["append", 3]], ["C", 3, [0], "clear"], ["NP", 1, [3], "rev"]]),
+    ("constructor_args", 5, list("abcde"), [["NC", 0, [1, 2], "clear"], ["NP", 3, [1, 2], ["append", 4]], ["NP", 4, [3], "none"]], [1]),
 ]
 
 
 def corpus(prop):
     out = []
-    for label, n, names, ops in CORPUS_DAGS:
-        base = {"kind": "dag", "n": n, "names": names, "attrs": [{} for _ in range(n)], "ops": ops, "stratum": label}
+    for label, n, names, ops, *rest in CORPUS_DAGS:
+        base = {"kind": "dag", "n": n, "names": names, "attrs": [{} for _ in range(n)], "ops": ops,
+                "checkpoints": rest[0] if rest else [], "stratum": label}
         if prop == "C16":
             out.append((label, base))
         else:
@@ -605,6 +828,10 @@ def corpus(prop):
                                        "rows": [["c", "a", {"tag": "x"}], ["c", "b", {"tag": "x"}], ["d", "c", {"tag": "y"}]]}))
         out.append(("dict_cycle", {"kind": "rawdict", "stratum": "corpus",
                                    "entries": [["a", ["b"], {}], ["b", ["c"], {}], ["c", ["a"], {}]]}))
+        # a cycle that closes through an edge added upstream of nodes whose ancestors were already asked for
+        for kind in ("rawlist", "rawdict", "rawdf"):
+            out.append(("cycle_upstream", _raw_from_rel(kind, [["a", "b"], ["b", "c"], ["x", "a"], ["b", "x"]], "corpus")))
+            out.append(("cycle_upstream2", _raw_from_rel(kind, [["b", "c"], ["a", "b"], ["c", "d"], ["x", "a"], ["d", "x"]], "corpus")))
     return out
 
 
@@ -618,8 +845,10 @@ def _exhaustive(prop, rng, nmax, orders):
                 rng.shuffle(es)
             style = [None, "R", "P", "C"][k % 4] if k else "R"
             names = ["a", "b", "c", "d", "e"][:n]
+            ops, _ = _ops_from_edges(rng, es, style, n=n)
             base = {"kind": "dag", "n": n, "names": names, "attrs": [{} for _ in range(n)],
-                    "ops": _ops_from_edges(rng, es, style), "stratum": f"exhaustive{n}"}
+                    "ops": ops, "checkpoints": ([len(ops) // 2 - 1] if len(ops) >= 2 and k != 1 else []),
+                    "stratum": f"exhaustive{n}"}
             if prop == "C16":
                 yield f"exhaustive{n}", base
             else:
@@ -631,7 +860,7 @@ def _exhaustive(prop, rng, nmax, orders):
 
 def generate(prop, rng, tier):
     if prop == "C16":
-        count = {"quick": 1700, "thorough": 24000, "search": 5000}[tier]
+        count = {"quick": 1100, "thorough": 12000, "search": 2500}[tier]
         if tier == "thorough":
             yield from _exhaustive(prop, rng, 4, 3)
         else:
@@ -650,8 +879,10 @@ def generate(prop, rng, tier):
         d = gen_dag(rng, nmax=6, pools=("distinct", "distinct", "affix", "special"), attr_style=attr_style)
         c = _export_case(rng, d, attr_style)
         yield "export/" + attr_style + "/" + c["stratum"], c
-    for i in range(count):
+    for i in range(count - (150 if tier == "quick" else 0)):
         label, c = gen_raw(rng)
+        yield c["stratum"], c
+    for c in gen_cyclic(rng, tier):
         yield c["stratum"], c
 
 
@@ -660,11 +891,31 @@ def generate(prop, rng, tier):
 
 
 def _op_ids(o):
-    if o[0] in ("P", "C"):
-        return [o[1]] + list(o[2])
+    if o[0] in ("P", "C", "NP", "NC"):
+        return [o[1]] + list(o[2]) + (list(o[3][1:]) if len(o) > 3 and isinstance(o[3], list) else [])
+    if o[0] in ("PS", "CS"):
+        return list(o[1]) + list(o[2]) + (list(o[3][1:]) if len(o) > 3 and isinstance(o[3], list) else [])
     if o[0] == "D":
         return [o[1]]
     return [o[1], o[2]]
+
+
+def _without_op(case, k):
+    c = dict(case)
+    c["ops"] = case["ops"][:k] + case["ops"][k + 1:]
+    cps = []
+    for q in case.get("checkpoints", []):
+        q2 = q if q < k else q - 1
+        if 0 <= q2 < len(c["ops"]) - 1:
+            cps.append(q2)
+    c["checkpoints"] = sorted(set(cps))
+    return c
+
+
+def _with_op(case, k, op):
+    c = dict(case)
+    c["ops"] = case["ops"][:k] + [op] + case["ops"][k + 1:]
+    return c
 
 
 def shrink_candidates(prop, case):
@@ -672,15 +923,24 @@ def shrink_candidates(prop, case):
     if kind in ("dag", "export"):
         ops = case["ops"]
         for k in range(len(ops)):
+            yield _without_op(case, k)
+        for q in case.get("checkpoints", []):
             c = dict(case)
-            c["ops"] = ops[:k] + ops[k + 1:]
+            c["checkpoints"] = [x for x in case["checkpoints"] if x != q]
             yield c
         for k, o in enumerate(ops):
-            if o[0] in ("P", "C") and len(o[2]) > 1:
-                for j in range(len(o[2])):
-                    c = dict(case)
-                    c["ops"] = ops[:k] + [[o[0], o[1], o[2][:j] + o[2][j + 1:]]] + ops[k + 1:]
-                    yield c
+            if o[0] in ("P", "C", "NP", "NC", "PS", "CS"):
+                mut = o[3] if len(o) > 3 else "none"
+                if len(o[2]) > 1:
+                    for j in range(len(o[2])):
+                        yield _with_op(case, k, [o[0], o[1], o[2][:j] + o[2][j + 1:], mut])
+                if mut != "none":
+                    yield _with_op(case, k, [o[0], o[1], o[2], "none"])
+                if o[0] in ("NP", "NC"):
+                    yield _with_op(case, k, [o[0][1], o[1], o[2], mut])
+                if o[0] in ("PS", "CS") and len(o[1]) > 1:
+                    for j in range(len(o[1])):
+                        yield _with_op(case, k, [o[0], o[1][:j] + o[1][j + 1:], o[2], mut])
         n = case["n"]
         used = set()
         for o in ops:
@@ -713,7 +973,9 @@ def shrink_candidates(prop, case):
 def size(case):
     kind = case.get("kind", "dag")
     if kind in ("dag", "export"):
-        return 10 * case["n"] + sum(len(_op_ids(o)) for o in case["ops"]) + sum(len(a) for a in case["attrs"])
+        return (10 * case["n"] + sum(1 + len(_op_ids(o)) for o in case["ops"]) + sum(len(a) for a in case["attrs"])
+                + 3 * len(case.get("checkpoints", []))
+                + sum(1 for o in case["ops"] if len(o) > 3 and o[3] != "none"))
     if kind == "rawlist":
         return len(case["rel"])
     if kind == "rawdict":
@@ -724,7 +986,8 @@ def size(case):
 def nontrivial(prop, case, obs):
     kind = case.get("kind", "dag")
     if kind in ("dag", "export"):
-        nedges = sum(len(l[1]) for l in obs["links"])
+        links = obs["snaps"][-1]["links"] if prop == "C16" else obs["links"]
+        nedges = sum(len(l[1]) for l in links)
         return case["n"] >= 3 and nedges >= 2
     if kind == "rawlist":
         return len(case["rel"]) >= 2
@@ -736,8 +999,10 @@ def nontrivial(prop, case, obs):
 def sample(prop, case, obs):
     kind = case.get("kind", "dag")
     if prop == "C16":
-        return {"names": case["names"], "ops": case["ops"], "links": obs["links"], "dag_iterator_from_0": obs["iter"][0],
-                "descendants": obs["desc"]}
+        fin = obs["snaps"][-1]
+        return {"names": case["names"], "ops": case["ops"], "checkpoints": case.get("checkpoints", []),
+                "snapshots": len(obs["snaps"]), "final_links": fin["links"], "dag_iterator_from_0": fin["iter"][0],
+                "descendants": fin["desc"]}
     if kind == "export":
         return {"names": case["names"], "ops": case["ops"], "start": case["start"], "mode": case["mode"],
                 "dag_to_list": obs["list"], "dag_to_dict": obs["dict"], "rebuilt_from_df": obs["rdf"]}
@@ -746,15 +1011,19 @@ def sample(prop, case, obs):
 
 def rule(prop):
     if prop == "C16":
-        return ("DAGs on 1-7 labelled nodes built on real DAGNode objects by the listed sequence of setter calls "
-                "(parents=[..], children=[..], >>, <<, del children): every acyclic edge set on <= 3 (quick) / <= 4 (thorough) "
+        return ("DAGs on 1-8 labelled nodes built on real DAGNode objects step by step through every entry point "
+                "(parents=[..] / children=[..] with multi-element lists, >>, <<, constructor arguments, del children, one list "
+                "object shared by several nodes, the caller's list mutated afterwards), with all queries run at up to two "
+                "intermediate checkpoints and at the end (each snapshot compared with the model on the links of that moment): "
+                "every acyclic edge set on <= 3 (quick) / <= 4 (thorough) "
                 "nodes in several insertion orders + random shapes sparse/mixed/dense/chain/fan-in/fan-out/diamond x name pools "
                 "distinct/affix/special/repeated; observed from every start node and every ordered pair; "
                 "non-trivial = >= 3 nodes and >= 2 edges; distinct by canonical JSON hash")
     return ("export cases: the same DAG families with attribute assignments total/partial/none, a start node and an attribute "
             "selection (all_attrs or an attr_dict with renamed keys), exported in the three formats and rebuilt by the matching "
             "constructor; raw cases: relation lists / dictionaries / frames over 3-5 names that are acyclic, contain an explicit "
-            "cycle of length 1-4, or are random, with repeated relations; non-trivial = >= 3 nodes and >= 2 edges (export) or >= 2 relations (raw)")
+            "cycle of length 1-4, or are random, with repeated relations; every cyclic edge set of <= 4 edges over four names in "
+            "all edge orders (thorough) / a sample of <= 5-edge sets in random orders (quick), for all three constructors; non-trivial = >= 3 nodes and >= 2 edges (export) or >= 2 relations (raw)")
 
 
 def explain(prop, case, obs, flags):
